@@ -209,8 +209,10 @@ PROPS = {
              "from source (T1, Gen = Model proofs), every primitive compared through hooks in two real builds on all 2-byte "
              "windows x lanes x backgrounds and random groups, table histories in both builds against the model, and the same "
              "histories cross-compared between the builds on return values/len/contents.",
-        note="Trusted: Lean kernel; propext/Classical.choice/Quot.sound plus seven `*._native.bv_decide.ax_*` axioms (bv_decide: "
-             "Lean compiler + LRAT checker) in generic_spec only — accepted, listed in evidence; Intel's documented lane "
+        note="Trusted: Lean kernel; axioms propext/Classical.choice/Quot.sound ONLY — the portable word tricks are proved with "
+             "kernel reasoning (Hb/Proofs/GroupKernel.lean, GroupKernelSpec.lean: bit extensionality of the packed word, decide "
+             "+kernel over lane bits, the borrow chain of the tag-match subtraction by omega); the earlier bv_decide proofs remain "
+             "in Hb/Proofs/Group.lean but no property theorem depends on them any more. Intel's documented lane "
              "semantics of cmpeq/movemask/cmpgt/or; harness/hooks. NEON/LSX back-ends cannot be built here and are not covered; "
              "big-endian to_le path not tied.",
     ),
